@@ -39,4 +39,12 @@ TEXT["C20"] = {
     "note": COMMON_NOTE + "SIMD intrinsics are compared, not modelled; the blocked rectangular transpose is compared, not proved (partial).",
     "technique": "Lean 4 theorems (BitVec bit extraction + decide +kernel) + model-equality correspondence across word widths",
 }
+TEXT["C15"] = {
+    "level": "Kernel-checked for every circuit, nesting depth and repeat count (also beyond 2^64 total): Stim's saturating block arithmetic for measurement / detector / tick counts equals "
+             "min(count over the unrolled instruction stream, 2^64-1) — it never wraps. Correspondence under ASan+UBSan: all count queries and compute_stats vs the Lean closed forms, coordinate queries and "
+             "every DEM query vs a one-instruction-at-a-time Lean executor in exact rationals, and histories of mutating API calls whose results must have the same normal form as the list operation "
+             "on the operands while every source object has already been destroyed.",
+    "note": COMMON_NOTE + "Coordinate closed forms and the normal-form argument are compared, not proved (partial). The monotonic-buffer pointer discipline is observed through ASan, not modelled.",
+    "technique": "Lean 4 theorems (mutual structural induction, saturating arithmetic) + oracle correspondence on API histories under ASan",
+}
 NOT_CLAIMED = {}
